@@ -607,14 +607,59 @@ REGEXP_TERMINALS += ['/a\x0cb/', '/\x0b/', '/x\x1c/']
 SYMBOL_NAMES = ['entry', 'expr', 'term', 'atom', 'name', 'op', 'x', 'y1', 'a_b', 'Rule', 'list', 'item', '_u', 'n0']
 
 
+_HEAD_TERMINALS: tuple[list[str], list[str]] | None = None
+OPERATOR_TAILS: list[str] = ['=']  # what completes a terminal opener to a combined symbol (filled by combined_head_terminals)
+
+
+def combined_head_terminals() -> tuple[list[str], list[str]]:
+	"""(string terminals, regexp terminals) whose body BEGINS with what completes a combined symbol of the gram token definition after a
+	terminal opener (`/` + `=` is the inherited `/=` operator), and more generally with every tail and every whole combined symbol (`==`,
+	`->`, `...`, `||`): read from the real definition of data/syntax/gram_tokenizer.py, so a new combined symbol or opener extends the set.
+	Only regexps `re` can compile and bodies without a raw slash are kept."""
+	global _HEAD_TERMINALS
+	if _HEAD_TERMINALS is not None:
+		return _HEAD_TERMINALS
+	combined = ['-=', '+=', '*=', '/=', '%=', '&=', '|=', '^=', '~=', '==', '!=', '<=', '>=', '&&', '||', '<<', '>>', '->', '**', ':=', '...']
+	openers = ['/', '"']
+	try:
+		from data.syntax.gram_tokenizer import gram_tokenizer
+		with budget(CALL_BUDGET_S):
+			d = gram_tokenizer()._definition
+			combined = list(d.combined_symbols)
+			openers = sorted({p['open'] for p in list(d.quote) + list(d.comment)})
+	except Exception:  # noqa: BLE001 - fall back to the pinned definition; the searches report what the real tokenizer does with it
+		pass
+	tails: list[str] = []
+	for o in openers:
+		tails += [c[len(o):] for c in combined if c.startswith(o) and len(c) > len(o)]   # what turns the opener into an operator
+	critical = set(tails)
+	OPERATOR_TAILS[:] = sorted(critical) or ['=']
+	tails += [c[1:] for c in combined] + list(combined)
+	strings: list[str] = []
+	regexps: list[str] = []
+	for t in dict.fromkeys(tails):
+		if not t or '/' in t or '"' in t:
+			continue
+		strings.append(f'"{t}"')
+		for body in ((t, f'{t}+', f'{t}|x', f'{t}{t}|!{t}') if t in critical else (t,)):
+			try:
+				re.compile(body)
+			except re.error:
+				continue
+			regexps.append(f'/{body}/')
+	_HEAD_TERMINALS = (strings, list(dict.fromkeys(regexps)))
+	return _HEAD_TERMINALS
+
+
 class RuleGen:
 	"""Random tuple trees shaped like the meta-grammar's output (`well_shaped=True`) or deliberately off-shape."""
 
 	def __init__(self, rng: random.Random, symbols: list[str] | None = None, strings: list[str] | None = None, regexps: list[str] | None = None) -> None:
 		self.rng = rng
 		self.symbols = symbols or SYMBOL_NAMES
-		self.strings = strings or STRING_TERMINALS
-		self.regexps = regexps or REGEXP_TERMINALS
+		hs, hr = combined_head_terminals()
+		self.strings = strings or (STRING_TERMINALS + hs[:8])
+		self.regexps = regexps or (REGEXP_TERMINALS + hr)
 
 	def term(self, depth: int, bare_groups: bool) -> Any:
 		r = self.rng.random()
